@@ -717,8 +717,47 @@ func liveCheck(check func(*Case, *Stats) error) func(*Case, *Stats) error {
 		}
 		o := obsOpt{typed: typedEnc(&e), scans: scansOK(&e), stat: true, str: len(e.Keys) < 800, marshal: true}
 		before := observe(est, qs, o)
+		// a by-value copy of a LOADED trie (the index package copies tries by value;
+		// wrapping a loaded trie in a SlimIndex needs one): the copy is a trie of its
+		// own and must keep its answers when the original is loaded with other data
+		var orig *trie.SlimTrie
+		var cp trie.SlimTrie
+		var beforeCp []string
+		var otherBytes []byte
+		err = guard("Marshal/Unmarshal (by-value copy history)", func() error {
+			ab, me := est.Marshal()
+			if me != nil {
+				return viol("marshal", "Marshal failed: %v", me)
+			}
+			orig = emptyTrie(&e)
+			if ue := orig.Unmarshal(ab); ue != nil {
+				return viol("unmarshal", "Unmarshal of own bytes failed: %v", ue)
+			}
+			cp = *orig
+			otherBytes, me = usedInstance(&e).Marshal()
+			if me != nil {
+				return viol("marshal", "Marshal failed: %v", me)
+			}
+			return nil
+		})
+		if err != nil {
+			return err
+		}
+		beforeCp = observe(&cp, qs, o)
 		if err := check(c, s); err != nil {
 			return err
+		}
+		err = guard("Unmarshal into the original of a by-value copy", func() error {
+			if ue := orig.Unmarshal(otherBytes); ue != nil {
+				return viol("unmarshal", "Unmarshal of a valid stream failed: %v", ue)
+			}
+			return nil
+		})
+		if err != nil {
+			return err
+		}
+		if d := diffObs(beforeCp, observe(&cp, qs, o)); d != "" {
+			return viol("copy-changed", "a by-value copy of a loaded trie answers differently after the ORIGINAL was loaded with other data: %s", d)
 		}
 		// one more unrelated build and a late rejected build, then look again
 		if _, err := lateRejectedBuild(); err != nil {
